@@ -566,11 +566,11 @@ pub fn mon_c09(_cfg: &Cfg, obs: &Obs, viols: &mut Vec<Viol>) {
     }
     let rt = matches!(
         obs.op,
-        Op::P | Op::Px | Op::PM(_, _) | Op::R(_, _) | Op::Ra(_, _) | Op::C(_) | Op::Z
+        Op::P | Op::Px | Op::Pa | Op::PM(_, _) | Op::R(_, _) | Op::Ra(_, _) | Op::C(_) | Op::Z
     ) || matches!(obs.op, Op::Bad(b) if !matches!(b, Bad::WrapMaskLen(_) | Bad::WrapPartialMaskLen(_) | Bad::WrapInChans(_) | Bad::WrapInShort(_, _) | Bad::WrapPartialInChans(_)));
     if rt && obs.alloc.total() != 0 && !matches!(obs.res, Res::Panic(_)) {
         let what = match obs.op {
-            Op::P | Op::Px | Op::PM(_, _) => "process_into_buffer",
+            Op::P | Op::Px | Op::Pa | Op::PM(_, _) => "process_into_buffer",
             Op::R(_, _) | Op::Ra(_, _) => "set_resample_ratio",
             Op::C(_) => "set_chunk_size",
             Op::Z => "reset",
@@ -610,10 +610,10 @@ pub fn mon_c13(
     };
     // expected error
     let (variant, fields): (&str, Vec<(&str, f64)>) = match bad {
-        Bad::InChans(d) | Bad::WrapInChans(d) | Bad::WrapPartialInChans(d) => {
+        Bad::InChans(d) | Bad::WrapInChans(d) | Bad::WrapPartialInChans(d) | Bad::AllOffInChans(d) => {
             ("WrongNumberOfInputChannels", vec![("expected", n), ("actual", adj(d))])
         }
-        Bad::OutChans(d) => ("WrongNumberOfOutputChannels", vec![("expected", n), ("actual", adj(d))]),
+        Bad::OutChans(d) | Bad::AllOffOutChans(d) => ("WrongNumberOfOutputChannels", vec![("expected", n), ("actual", adj(d))]),
         Bad::MaskLen(d) | Bad::WrapMaskLen(d) | Bad::WrapPartialMaskLen(d) => {
             ("WrongNumberOfMaskChannels", vec![("expected", n), ("actual", adj(d))])
         }
@@ -673,6 +673,8 @@ pub fn mon_c13(
         Bad::MaskedOutShort(_, _) => "maskedoutshort",
         Bad::InShortBoth => "inshortboth",
         Bad::OutShortBoth => "outshortboth",
+        Bad::AllOffOutChans(_) => "alloffoutchans",
+        Bad::AllOffInChans(_) => "alloffinchans",
     };
     // an OutShort on a resampler whose next output is 0 frames is not malformed
     let vacuous = match bad {
